@@ -82,6 +82,9 @@ def classes(ctx, dev, dev3, other):
         yield "unbalanced-constant-2", mag, solve(terminal_currents={"source": 5.0, "drain": -5.0 * (1 + mag)}), (ValueError,)
         yield "unbalanced-constant-3", mag, solve(_dev=dev3, terminal_currents={"source": 5.0, "drain": -2.0, "top": -3.0 + 5.0 * mag}), (ValueError,)
         yield "unbalanced-timedep", mag, solve(terminal_currents=(lambda m: (lambda t: {"source": 4.0 + np.sin(t), "drain": -(4.0 + np.sin(t)) * (1 - m)}))(mag)), (ValueError,)
+        # ... "at any time": unbalanced during the whole recorded window [0, solve_time] of a run that also has a
+        # thermalisation stage (both stages run on a clock that starts at 0), balanced at later times
+        yield "unbalanced-timedep-with-thermalisation", mag, solve(_opts=dict(skip_time=0.02), terminal_currents=(lambda m: (lambda t: {"source": 4.0, "drain": -4.0 * ((1 - m) if t <= 0.02 else 1.0)}))(mag)), (ValueError,)
         yield "epsilon-gt-1", mag, solve(disorder_epsilon=1.0 + mag), (ValueError,)
         yield "epsilon-gt-1-callable", mag, solve(disorder_epsilon=(lambda m: (lambda r: 1.0 + m * (r[0] > 0)))(mag)), (ValueError,)
         yield "dt_init>dt_max", mag, solve(_opts=dict(dt_init=1e-2 * (1 + mag), dt_max=1e-2)), (SolverOptionsError,)
@@ -147,6 +150,19 @@ def classes(ctx, dev, dev3, other):
         ("two-terminals->three(first)", base, variant(extra_terminals=[atap])),
         ("other-london-length", variant(lam=dev.layer.london_lambda * 1.5), base),
     ]
+    # Device.__eq__ / the seed guard vs the Lean model (devEq, seedGuard in Tdgl/DeviceEq.lean), on these pairs, on
+    # the pairs in reverse, and on each device against a copy whose holes / terminals are listed in another order
+    devs_ = [base] + [p_[1] for p_ in pairs] + [p_[2] for p_ in pairs]
+    cmp_pairs = [(a_, b_) for _, a_, b_ in pairs] + [(b_, a_) for _, a_, b_ in pairs]
+    for d_ in devs_[:6]:
+        sh = tdgl.Device(d_.name, layer=d_.layer.copy(), film=d_.film.copy(), holes=[h_.copy() for h_ in reversed(d_.holes)],
+                         terminals=[t_.copy() for t_ in reversed(d_.terminals)], probe_points=d_.probe_points, length_units=d_.length_units)
+        cmp_pairs.append((d_, sh))
+    lines_ = [" | ".join(("deveq",) + zoo.device_line(a_) + zoo.device_line(b_)) for a_, b_ in cmp_pairs]
+    for (a_, b_), o_ in zip(cmp_pairs, V.driver(lines_)):
+        ctx.corr(o_.strip() == f"eq={str(bool(a_ == b_)).lower()} guard={str(bool(a_ == b_)).lower()}", "Device.__eq__ vs devEq (Lean)",
+                 dict(a=zoo.device_line(a_)[1:], b=zoo.device_line(b_)[1:], impl=bool(a_ == b_), model=o_))
+    ctx.traces += len(lines_)
     for nm, dseed, dsim in pairs:
         sd = tdgl.solve(dseed, runs.options(solve_time=0.02, save_every=10))
         yield f"seed-device-differs:{nm}", "gross", solve(_dev=dsim, seed_solution=sd), (ValueError,)
